@@ -2,6 +2,7 @@
 hashes do not depend on LOG / FAIL / ORDERS)."""
 LOG = []
 FAIL = set()
+INTERRUPT = set()          # (name, key): the function is interrupted there (KeyboardInterrupt: Ctrl-C, SIGINT)
 ORDERS = {}
 
 
@@ -28,6 +29,8 @@ def ids_v2():
 
 def fx(i):
     LOG.append(f'x:{i}')
+    if ('x', i) in INTERRUPT:
+        raise KeyboardInterrupt(f'x:{i}')
     if ('x', i) in FAIL:
         raise UserError(f'x:{i}')
     return f'$x({i})'
@@ -35,6 +38,8 @@ def fx(i):
 
 def _field(name, i, x):
     LOG.append(f'{name}:{i}')
+    if (name, i) in INTERRUPT:
+        raise KeyboardInterrupt(f'{name}:{i}')
     if (name, i) in FAIL:
         raise UserError(f'{name}:{i}')
     return f'${name}({i})'
